@@ -131,10 +131,10 @@ P("C01", "exploration",
   {"reads.fetch.live": 500, "reads.fetch.dead": 300, "reads.peer-request.served": 200, "reads.listings": 300, "store.reads-live": 1000, "clock.advance-exactly-to-deadline": 300})
 
 P("C02", "exploration",
-  "case = random Config (zero / negative / inverted / huge values incl. INT64_MIN/MAX in every TTL, rotation, announce and PoW field) -> effective limits checked, then 4 (quick) / 8 (thorough) stores with requested TTLs from the same set; "
+  "case = random Config (zero / negative / inverted / huge values incl. INT64_MIN/MAX in every TTL, rotation, announce and PoW field) -> effective limits checked, then 4 (quick) / 8 (thorough) stores with requested TTLs from the same set, one in three of them repeating an id stored earlier in the case after 0..5 s; "
   "the four recorded lifetimes (chunk record, manifest expiry, shard record, self announcement) are read from node state under the frozen clock and must equal clamp(request or default, min, max) exactly; distinct = effective (min, max, default, rotation)",
   [H("node", "h_node", 3000, 200000, hprop="C02")], [A_SAN, A_VCLK, "the control-plane TTL header is checked by the C28 harness (same in-process ControlServer)"],
-  {"config.sanitised": 3000, "lifetimes.checked": 20000})
+  {"config.sanitised": 3000, "lifetimes.checked": 20000, "lifetimes.repeated-stores": 500})
 
 P("C03", "exploration",
   "case = 4..15 manifest arrivals (ingest, ANNOUNCE over a socketpair session with announced TTLs 0..2^32-1, replica receipt with genuine ciphertext, fetch request) with expiry at now-1e5s .. now+min-1/min/min+1 .. max+-1 .. 10 years .. the largest encodable second; "
@@ -150,9 +150,9 @@ P("C05", "exploration",
 
 P("C11", "exploration",
   "case = store on node A (payload sizes 0,1,63,64,65,4 KiB,70000 / 1 MiB thorough; (t,n) incl. (1,1),(255,255); chunk ids whose ChaCha counter wraps) then local fetch, held bytes vs reference ChaCha20 under the key reconstructed by an independent GF(256) Lagrange, "
-  "replica import + fetch on node B, the CLI's decrypt_chunk_with_manifest; then 8-12 corruptions (ciphertext bit flips/truncation/extension, manifest hash/nonce/share byte/share index/threshold/id) on fresh nodes: must return nullopt and leave state unchanged unless the mutated pair is still consistent; distinct = (size, t, n, id byte)",
+  "replica import + fetch on node B, the CLI's decrypt_chunk_with_manifest; in half of the cases the same chunk id is then stored again (same payload 2/3, other payload 1/3) and local fetch, held bytes, replica import and fetch on B (which knows the first replica) are checked against the second manifest; then 8-12 corruptions (ciphertext bit flips/truncation/extension, manifest hash/nonce/share byte/share index/threshold/id) on fresh nodes: must return nullopt and leave state unchanged unless the mutated pair is still consistent; distinct = (size, t, n, id byte)",
   [H("node", "h_node", 600, 60000, hprop="C11")], [A_SAN, A_OSSL, A_VCLK],
-  {"roundtrip.stores": 500, "roundtrip.replica-imports": 400, "tamper.attempts": 3000})
+  {"roundtrip.stores": 500, "roundtrip.replica-imports": 400, "tamper.attempts": 3000, "roundtrip.repeated-stores": 150})
 
 P("C19", "exploration",
   "case 0 = the four leading-zero counters (Node.cpp, StoreProof.cpp, main.cpp via TU inclusion, digest_meets_difficulty) against a bit-by-bit reference on digests with exactly k leading zero bits for ALL k=0..256 and all difficulties 0..255; "
@@ -201,15 +201,19 @@ P("C34", "exploration",
 P("C25", "exploration",
   "case = stepped history (the harness owns the event loop and chooses which ready socket is served next) of 10..70 REGISTER / re-REGISTER (also while claimed) / CONNECT (self, unknown, claimed; split across writes) / identity (split) / data / close operations from 2..6 real TCP clients over 1..3 peer ids; "
   "every data byte belongs to a unique token <client:seq>; after each served event: bytes queued to a session must come from its symmetric Bridged partner, partner links symmetric, a claimed session is not in the registry; at the end: tail bursts on live bridges arrive complete, in order and nowhere else, "
-  "token streams in send order, closing one side gives the other EOF; distinct = operation-sequence hash",
-  [H("stepped", "h_relay", 3000, 300000, hprop="C25")], [A_SAN, "bridge facts (state, partner) are read from the server's session objects; loopback TCP delivery is awaited with FIONREAD/poll, reads are exact-count"],
-  {"relay.forwarding-steps-observed": 1000, "delivery.bridge-directions-checked": 300, "disconnect.bridge-teardowns-checked": 150, "ops.re-register-while-claimed": 100})
+  "token streams in send order, closing one side gives the other EOF; distinct = operation-sequence hash.  Second part (threaded): the real EventLoop::run thread (epoll) serves 1..4 target, 1..6 connector and 0..2 garbage client threads "
+  "(competing connectors, bursts larger than the socket buffers, abrupt closes); black-box oracle on what each connection received: bytes of at most one sender, only of a connector/target pair whose CONNECT was answered OK, BEGIN+identity first, "
+  "a prefix of what the partner sent, and complete once the loop is joined and leftover events are served single-threaded",
+  [H("stepped", "h_relay", 3000, 300000, hprop="C25"), H("threaded", "h_relay", 64, 6000, hprop="C25t", qworkers=8)], [A_SAN, "bridge facts (state, partner) are read from the server's session objects; loopback TCP delivery is awaited with FIONREAD/poll, reads are exact-count"],
+  {"relay.forwarding-steps-observed": 1000, "delivery.bridge-directions-checked": 300, "disconnect.bridge-teardowns-checked": 150, "ops.re-register-while-claimed": 100,
+   "threaded.runs": 60, "threaded.bridges-observed": 20, "threaded.complete-directions-checked": 20})
 
 P("C26", "exploration",
   "case = stepped run of 1..6 TCP clients sending partial lines, every prefix of valid dialogue pieces, 1 MiB lines without newline, CRLF, NUL/binary, malformed commands, identity fragments of 0..32 bytes, then leaving in random order (graceful FIN or RST); "
-  "oracle after stepping to quiescence: sessions_ and registered_ empty, /proc/self/fd back to the pre-client set, the server still accepts and answers a new client, no sanitizer report; distinct = operation-sequence hash",
-  [H("stepped", "h_relay", 2000, 300000, hprop="C26")], [A_SAN],
-  {"release.all-clients-left": 1500, "release.post-run-probes": 1500, "streams.huge-lines": 300, "streams.abrupt-resets": 500})
+  "oracle after stepping to quiescence: sessions_ and registered_ empty, /proc/self/fd back to the pre-client set, the server still accepts and answers a new client, no sanitizer report; distinct = operation-sequence hash.  Second part (threaded): the same release oracle after a run in which the real "
+  "EventLoop::run thread served concurrent target / connector / garbage client threads (the path through epoll and the registered callbacks, which the stepped part bypasses)",
+  [H("stepped", "h_relay", 2000, 300000, hprop="C26"), H("threaded", "h_relay", 64, 6000, hprop="C26t", qworkers=8)], [A_SAN],
+  {"release.all-clients-left": 1500, "release.post-run-probes": 1500, "streams.huge-lines": 300, "streams.abrupt-resets": 500, "threaded.runs": 60})
 
 P("C27", "exploration",
   "case = in-process ControlServer + Node with a random control token; 10 raw requests drawn from {STORE, FETCH STREAM:client, FETCH OUT:<path>, STOP} x token {absent, wrong, proper prefix, proper suffix, case-changed, extra whitespace, empty, doubled, exact} x shuffled header order (held and foreign manifests); "
@@ -242,9 +246,11 @@ P("C35", "exploration",
 
 P("C14", "exploration",
   "case%3: (0) two real nodes over loopback, burst of 1..200 messages of sizes 0/1/63/64/65/.../3000; (1) messages around the limit: 1 MiB-1, exactly 1 MiB (must arrive), 1 MiB+1 and 2 MiB (send must fail, nothing may arrive); receiver handler log compared with the sender log (count, order, SHA-256, length); "
-  "(2) the harness as a raw TCP peer after a genuine handshake: every frame the node emits is nonce|len|ct with ct == reference ChaCha20(key, nonce, payload), nonces pairwise distinct, no plaintext on the wire; hand-made frames are delivered; a header announcing > 1 MiB (body never sent) must end the session; distinct = (mode, size sequence)",
-  [H("main", "h_transport", 45, 3000, hprop="C14", qworkers=8)], [A_SAN, A_OSSL, "real loopback TCP; a delivery wait that exceeds the 30 s watchdog is reported as loss"],
-  {"sessions.messages-delivered": 500, "sessions.exactly-1MiB-sends": 10, "sessions.oversized-sends": 10, "wire.frames-observed": 100, "wire.oversized-length-announcements": 10})
+  "(2) the harness as a raw TCP peer after a genuine handshake: every frame the node emits is nonce|len|ct with ct == reference ChaCha20(key, nonce, payload), nonces pairwise distinct, no plaintext on the wire; hand-made frames are delivered; a header announcing > 1 MiB (body never sent) must end the session; distinct = (mode, size sequence).  Second part (concurrent): 2..4 threads of node A send 3..12 payloads each (0..64 B, 1..60 KB, 200 KB..1 MiB) to B at the same time, "
+  "B's handler delayed 0..3 ms per message so the socket fills; oracle: every payload delivered exactly once and unchanged, per-sender order kept, nothing else delivered",
+  [H("main", "h_transport", 45, 3000, hprop="C14", qworkers=8), H("concurrent", "h_transport", 24, 2000, hprop="C14m", qworkers=8)], [A_SAN, A_OSSL, "real loopback TCP; a delivery wait that exceeds the 30 s watchdog is reported as loss"],
+  {"sessions.messages-delivered": 500, "sessions.exactly-1MiB-sends": 10, "sessions.oversized-sends": 10, "wire.frames-observed": 100, "wire.oversized-length-announcements": 10,
+   "concurrent.node-pairs": 20, "concurrent.sends": 200})
 
 P("C39", "exploration",
   "case = two real nodes with a live loopback session and a rotation interval from {5,6,10,60,300} s under the offset virtual clock: first tick both before any rotation is due (keys equal, probe messages flow both ways), then jump to interval-50ms / +1ms / +random / 2x interval, "
